@@ -79,6 +79,7 @@ def path_obligations(prefix, results, post, instance=None, fn_record=None, expec
         if fn_record:
             meta.update(function=fn_record["function"], file=fn_record["file"], lines=fn_record["lines"], sha256=fn_record["sha256"])
         facts = []
+        n_side_run = len(r.ctx.side)          # definedness obligations of the CODE; the spec side's own are not the code's
         with within(r.ctx):
             try:
                 for (name, extra, goal) in post(r):
